@@ -4,7 +4,7 @@
    statements inside the whole program (one namespace dict threaded through all parts) is runtime behaviour and
    is checked on the implementation against a plain exec of the de-prompted source. *)
 From XD Require Import Model.Base Model.Parser Model.Checker Model.Text Model.Directive Model.RunLoop Model.Proc
-  Proofs.RunProofs Proofs.C01Proofs Proofs.ProcProofs.
+  Proofs.RunProofs Proofs.C01Proofs Proofs.ProcProofs Proofs.ChunkProofs Spec.Partition.
 
 (* the parts handed to exec form a strictly increasing sequence of positions: every part at most once, in
    source order, for every behaviour of the parts; likewise the skipped ones *)
@@ -45,3 +45,11 @@ Print Assumptions C01_capture_exact.
 Theorem C01_tab_expansion : forall o s, parse o (expandtabs s) = parse o s.
 Proof. exact parse_tab_expansion. Qed.
 Print Assumptions C01_tab_expansion.
+
+(* slicing: the executable lines of the parts of a chunk are the chunk's de-prompted source lines, each line in
+   exactly one part and in the original order -- whatever the tokenizer, ast and directive oracles answer *)
+Theorem C01_parts_partition_source : forall o raw_src raw_want lineno ps,
+  package_chunk o raw_src raw_want lineno = Ok ps ->
+  concat (map exec_lines ps) = map (skipn 4) (dedent_chunk raw_src).
+Proof. exact package_chunk_exec_partition. Qed.
+Print Assumptions C01_parts_partition_source.
